@@ -106,6 +106,23 @@ class Builder:
             name = self.new_var(GS.show_t(it), v[0], True)
             self.features.add("nested-variable")
             return "[" + ", ".join(["$" + name] + [GS.lit(x) for x in v[1:]]) + "]"
+        t0 = GS.nullable(t)
+        if t0[0] == "list" and isinstance(v, list) and len(v) == 1 and v[0] is not None and not isinstance(v[0], list) \
+                and GS.nullable(t0[1])[0] != "list" and self.coin(1, 2):
+            # a single value where a list is expected is coerced to a list of one (input coercion of lists)
+            self.features.add("single-value-for-list")
+            item = v[0]
+            it = GS.nullable(t0[1])
+            if self.use_variables and isinstance(item, dict) and "__enum__" not in item and item and it[0] == "named" \
+                    and it[1] in self.spec["types"] and self.spec.kind(it[1]) == "input" and self.coin():
+                # ... with a variable inside the object literal
+                key = self.d(st.sampled_from(sorted(item)))
+                f = [x for x in self.spec["types"][it[1]]["fields"] if x["name"] == key][0]
+                if item[key] is not None or GS.parse_t(f["type"])[0] != "nn":
+                    name = self.new_var(f["type"], item[key], True)
+                    self.features.add("nested-variable")
+                    return "{" + ", ".join("%s: %s" % (k, "$" + name if k == key else GS.lit(x)) for k, x in item.items()) + "}"
+            return GS.lit(item)
         return GS.lit(v)
 
     def directives(self, where):
